@@ -330,9 +330,13 @@ def b_float(rng, tier):
         if 1 <= y <= 9999:
             import datetime as _dt
             us = int((s % 1) * 1e6)
-            dd = _dt.datetime(y, m, d, h, mi, int(s), us)
-            ok = ok and abs(Epoch(dd).jde() - Epoch(y, m, d, h, mi, int(s) + us / 1e6).jde()) < 1e-9 \
-                and abs(Epoch(_dt.date(y, m, d)).jde() - Epoch(y, m, d).jde()) < 1e-9
+            try:
+                dd = _dt.datetime(y, m, d, h, mi, int(s), us)
+            except ValueError:
+                dd = None                # 29 February of a Julian century year: not a date of the proleptic Gregorian datetime
+            if dd is not None:
+                ok = ok and abs(Epoch(dd).jde() - Epoch(y, m, d, h, mi, int(s) + us / 1e6).jde()) < 1e-9 \
+                    and abs(Epoch(_dt.date(y, m, d)).jde() - Epoch(y, m, d).jde()) < 1e-9
         x = rng.uniform(-1e6, 1e6) if rng.random() < 0.5 else float(rng.randint(-10 ** 6, 10 ** 6))
         if 0 <= j + x <= 6.4e6 and 0 <= j - x:
             ok = ok and abs(((e + x) - e) - x) < 1e-8 and abs((e - (e - x)) - x) < 1e-8 \
